@@ -709,6 +709,8 @@ func (c *converter) addDefaultHostBackend(source *annotations.Source, fullSvcNam
 	match := hatypes.MatchBegin
 	if fr := c.haproxy.Hosts().FindHost(hostname); fr != nil {
 		if fr.FindPath(uri, match) != nil {
+			// track the default host, so this ingress is synced again if the current owner of the path leaves
+			c.tracker.TrackNames(source.Type, source.FullName(), convtypes.ResourceHAHostname, hostname)
 			return fmt.Errorf("path %s was already defined on default host", uri)
 		}
 	}
